@@ -53,6 +53,7 @@ class Path:
             # feasibility / entailment only need refutations: E-matching suffices; model-based instantiation is what makes
             # satisfiable queries with quantified axioms slow ("unknown" is treated as feasible / not entailed)
             self.solver.set("smt.mbqi", False)
+            self.solver.set("smt.arith.solver", 2)
         except z3.Z3Exception:
             pass
         self.obls: list[Obligation] = []
